@@ -226,9 +226,9 @@ pub struct ProcResult<T> {
 }
 
 /// CPU time a simulated process may consume (operations take milliseconds)
-pub const WATCHDOG: Duration = Duration::from_secs(20);
+pub const WATCHDOG: Duration = Duration::from_secs(45);
 /// wall-clock backstop for a process that is blocked without consuming CPU
-pub const WATCHDOG_WALL: Duration = Duration::from_secs(300);
+pub const WATCHDOG_WALL: Duration = Duration::from_secs(900);
 
 fn thread_cpu_time(pt: libc::pthread_t) -> Option<Duration> {
     unsafe {
